@@ -36,6 +36,7 @@ def loop_plan(prop):
                 ctx.mc_replay("nestf8", "MC_Loop.tla", "MC_Loop_hist.cfg", "fam_nestf.json", props, variants=1, consts={"MaxLen": 8})
             ctx.mc_replay("nestx6", "MC_Loop.tla", "MC_Loop_hist.cfg", "fam_nestx.json", props, variants=1, consts={"MaxLen": 6})
             ctx.mc_replay("nesty6", "MC_Loop.tla", "MC_Loop_hist.cfg", "fam_nesty.json", props, variants=1, consts={"MaxLen": 6})
+            ctx.mc_replay("foreign6", "MC_Loop.tla", "MC_Loop_hist.cfg", "fam_foreign.json", props, variants=1, consts={"MaxLen": 6})
             extend_sweeps(ctx, prop)
             ctx.trace("sessions", props, sessions=40, calls=25, check_attrs=True, kinds="0,1,2,3,4,5,8",
                       extra=["-nounsafe=false"] if prop in ("C08", "C09") else None)
@@ -50,6 +51,7 @@ def loop_plan(prop):
                 ctx.mc_replay("nestf9", "MC_Loop.tla", "MC_Loop_hist.cfg", "fam_nestf.json", props, variants=1, consts={"MaxLen": 9}, timeout=3000)
             ctx.mc_replay("nestx7", "MC_Loop.tla", "MC_Loop_hist.cfg", "fam_nestx.json", props, variants=1, consts={"MaxLen": 7}, timeout=3000)
             ctx.mc_replay("nesty8", "MC_Loop.tla", "MC_Loop_hist.cfg", "fam_nesty.json", props, variants=1, consts={"MaxLen": 8}, timeout=3000)
+            ctx.mc_replay("foreign8", "MC_Loop.tla", "MC_Loop_hist.cfg", "fam_foreign.json", props, variants=1, consts={"MaxLen": 8}, timeout=3000)
             extend_sweeps(ctx, prop)
             ctx.trace("sessions", props, sessions=400, calls=40, timeout=3000, check_attrs=True, kinds="0,1,2,3,4,5,8",
                       extra=["-nounsafe=false"] if prop in ("C08", "C09") else None)
